@@ -146,6 +146,12 @@ def to_binary(vc):
     off = vc.int("off", 0)
     if vc.symbolic:
         f, n = AF.make_file(vc, M)
+        # the object has ALREADY been written once while it held any earlier content with the same number of components
+        # (directory of arbitrary bytes and length, arbitrary offset and key): what that write leaves in the object must
+        # not show in this one ("for every file content", not "for every freshly built object")
+        pdir = vc.bytes("prior_dir", vc.int("prior_dirlen", 4))
+        f.dir_to_binary = lambda next_blob_adr=0, session_key=bytes(16): pdir
+        vc.call(f.to_binary, vc.int("prior_off", 0), vc.bytes("prior_key", 16))
         f.dir_to_binary = dir_contract(vc, f, n)
         out = vc.call(f.to_binary, off, key)
         if out.raised(OverflowError):
@@ -165,6 +171,14 @@ def to_binary(vc):
     else:
         from spec import layout
         f, spec = concrete_file(vc, M)
+        if f.components:
+            # an earlier write of the same object with other tags on the same components (see the symbolic branch)
+            c0 = f.components[0]
+            saved = dict(c0.description)
+            c0.description[0xEE] = b"earlier content" * (1 + len(f.components))
+            vc.call(f.to_binary, (off * 7 + 3) % 65536, bytes(reversed(key)))
+            c0.description.clear()
+            c0.description.update(saved)
         out = vc.call(f.to_binary, off, key)
         if not out.returned:
             vc.prove("post.only-overflow-rejects", out.raised(OverflowError))
